@@ -2124,6 +2124,17 @@ func (d *Document) parseBodyElement(decoder *xml.Decoder) error {
 				return err
 			}
 			if element != nil {
+				if _, isSect := element.(*SectionProperties); isSect {
+					// 正文级 sectPr 描述最后一节，即文档的页面设置；此前由段落级 sectPr（较早的节）
+					// 登记的节属性必须让位，否则 GetPageSettings/各设置方法使用第一个，而保存只写最后一个
+					kept := d.Body.Elements[:0]
+					for _, e := range d.Body.Elements {
+						if _, earlier := e.(*SectionProperties); !earlier {
+							kept = append(kept, e)
+						}
+					}
+					d.Body.Elements = kept
+				}
 				d.Body.Elements = append(d.Body.Elements, element)
 			}
 		case xml.EndElement:
